@@ -155,7 +155,7 @@ pub fn c03_tsi() {
 		d1 = ema_step(d1, mom.abs(), al);
 		d2 = ema_step(d2, d1, a_s);
 		// the quotient is exempt where the denominator is within the allowance of zero
-		rsx::assume(d2 == 0.0 || d2 > 0.001);
+		rsx::assume(d2 == 0.0 || d2 > 0.001 * r_maxabs(&hist_in));
 		let r = if d2 > 0.0 { n2 / d2 } else { 0.0 };
 		rsx::close("tsi.next", m.next(&x), r, 4096.0 * scale);
 		rsx::close("tsi.peek", m.peek(), r, 4096.0 * scale);
@@ -185,7 +185,7 @@ pub fn c03_vidya() {
 			dn += r_max(-*c, 0.0);
 		}
 		// the adaptive factor is a quotient: exempt where up+dn is within the allowance of zero
-		rsx::assume(up + dn == 0.0 || up + dn > 0.001);
+		rsx::assume(up + dn == 0.0 || up + dn > 0.001 * r_maxabs(&hist_in));
 		y = if up + dn > 0.0 {
 			let k = f * ((up - dn) / (up + dn)).abs();
 			k * x + (1.0 - k) * y
